@@ -53,6 +53,7 @@ type Spec struct {
 	Ptr    bool           // the position's Go type is *Go
 	Arrow  arrow.DataType // expected wire type
 	Bits   int            // ints/uints: min(Go bits, wire bits); floats: wire bits (32|64)
+	Max    uint64         // ints/uints under a wire type of the other signedness: values lie in [0, Max] (0 = not set)
 	Width  int            // fixed_size_binary width (0 = variable)
 	Elem   *Spec          // list element / map value
 	Key    *Spec          // map key
@@ -187,7 +188,18 @@ func modelType(t reflect.Type, opt, elemOpt string, depth int) (*Spec, error) {
 			return nil, fmt.Errorf("%s option on non-integer %v", opt, t)
 		}
 		if gosigned != wsigned {
-			return nil, fmt.Errorf("model: %s option on %v (mixed signedness is not part of the documented mapping)", opt, t)
+			// The library accepts the pair; the values both sides can hold are
+			// the non-negative ones below the smaller positive range.
+			pos := func(bits int, signed bool) uint64 {
+				if signed {
+					bits--
+				}
+				if bits >= 64 {
+					return ^uint64(0)
+				}
+				return uint64(1)<<bits - 1
+			}
+			sp.Max = min(pos(gobits, gosigned), pos(wbits, wsigned))
 		}
 		if gosigned {
 			sp.Sem = SemInt
